@@ -51,6 +51,20 @@ def _isinstance(it, a, kw, node):
         return res
     if isinstance(T, External):
         tn = T.qual.replace("builtins.", "")
+        if isinstance(v, I.HashObj):
+            # the concrete type of a hashlib object depends on the algorithm (_hashlib.HASH for the OpenSSL-backed ones,
+            # _blake2.blake2b / blake2s, _sha3 … otherwise): unknown for a symbolic hash function
+            if tn in ("int", "bytes", "bool", "str", "bytearray", "list", "tuple", "float"):
+                return False
+            if is_sym(v.fn) or isinstance(v.fn, Term):
+                return Term("isinstance", (I._hashable(v.fn), tn), "bool")
+            if tn in ("_hashlib.HASH", "hashlib._Hash"):
+                if repr(v.fn) in ("sha256", "sha384", "sha512", "sha224", "sha1", "md5"):
+                    return True
+                if repr(v.fn) in ("blake2b", "blake2s"):
+                    return False            # hashlib always binds these to _blake2.blake2b / blake2s
+                return Term("isinstance", (repr(v.fn), tn), "bool")      # sha3_*: OpenSSL-backed or _sha3, build dependent
+            raise AnalysisError(f"{it.where(node)}: isinstance of a hash object against {T.qual}")
         if tn not in ("int", "bytes", "bool", "str", "bytearray", "list", "tuple", "float"):
             raise AnalysisError(f"{it.where(node)}: isinstance against {T.qual}")
         if isinstance(v, Term) or hasattr(v, "v_isinstance"):
@@ -563,6 +577,18 @@ def call_method(it, name, obj, args, kwargs):
         if h.key is not None:
             return Term("HMAC", (h.fn, I._hashable(_b2b(h.key)), I._hashable(_b2b(h.data))), "bytes")
         return Term("H", (h.fn, I._hashable(_b2b(h.data))), "bytes")
+    if name == "hash.copy":
+        return I.HashObj(obj.fn, obj.data, key=obj.key)
+    if name == "hash.update":
+        so = it.world.__dict__.get("shared_objs", {}).get(id(obj))
+        if so is not None and so[2] is obj:
+            from .term import HistoryDependence
+            fr = next((f for f in reversed(it.stack) if f.func is not None), None)
+            raise HistoryDependence(fr.func.qualname if fr else so[0], f"{so[0]}.{so[1]}",
+                                    "update() absorbs data into a module-level hash object: every later digest "
+                                    "depends on what earlier calls absorbed", it.where(None))
+        obj.data = t_concat([obj.data, args[0]])
+        return None
     if tname == "field":
         return Term(meth + "_of", (Term("type", (obj,), "any"),), "field")
     if tname == "int" and meth == "to_bytes":
@@ -657,6 +683,17 @@ def call_method(it, name, obj, args, kwargs):
         if meth == "items":
             return list(obj.items())
         if meth == "get":
+            sr = it.shared_read(obj, args[0], None, "get()")
+            default = args[1] if len(args) > 1 else None
+            if sr == "miss":
+                return default
+            if sr == "fork":
+                has = Term("dict_has", (it.shared_name(obj), I._hashable(args[0])), "bool")
+                if it.truth(has, None):
+                    return Term("dict_get", (it.shared_name(obj), I._hashable(args[0])), "any")
+                return default
+            if I._has_abstract(args[0]):
+                return default
             return obj.get(*args)
     raise AnalysisError(f"unmodelled method {name} on {show(obj)}")
 
